@@ -15,12 +15,12 @@ LEVEL = 'exploration'
 RULE = ('cases = (configuration, function, operand pattern, value point / coefficient type) inside the domains the statement names: outer exponentials on '
         'patterns without scalar part (generic point; Fractions for outertan), exp on every element of the enumerated families whose square is a scalar '
         '(decided by the reference algebra) with positive, zero and negative squares and coefficient types int/float/complex/numpy.float64/sympy, sqrt on '
-        'Study numbers with positive scalar part, integer powers -3..4, norm/normalized where normsq is a positive scalar. Oracles: finite wedge-power sum, '
+        'Study numbers with positive scalar part, integer powers -6..10, norm/normalized where normsq is a positive scalar. Oracles: finite wedge-power sum, '
         '40-term power series, sqrt(x)^2 == x, repeated reference products, norm()^2 == normsq(), normalized().normsq() == 1. distinct = distinct '
         '(configuration, function, pattern, point, type); non-trivial = the operand has a non-zero non-scalar part.')
 ASSUMPTIONS = ['reference algebra = word oracle (C01); relative tolerance 1e-9 where floats occur', 'exp() on numpy arrays is not judged (documented as unsupported)']
 BOUNDS = {'quick': 'sig(d) d<=3; outer exponentials: grade blocks and subsets <=2 blades; exp: single blades and 2-blade combinations x grid {-2,-0.5,1,1.5}^k x 5 types; '
-                   'sqrt: scalar + blade / pseudoscalar x 3x4 grid; powers -3..4 on subsets <=2 blades; norms on blades, vectors, even blocks',
+                   'sqrt: scalar + blade / pseudoscalar x 3x4 grid; powers -6..10 on subsets <=2 blades; norms on blades, vectors, even blocks',
           'thorough': 'adds sig(4), pqr(5), pqr(6) (outer exponentials on grade blocks, exp on blades and vectors), subsets <=3 blades for d<=3, larger grids'}
 
 
@@ -203,10 +203,13 @@ def run_shard(shard):
         if not shard['big'] and alg.d >= 3:
             biv = [k for k in c if spaces.grade_of(k) == 2]
             cands += [(0,) + p for p in combinations(biv, 2)]
+        cands = cands + [tuple(k[1:]) + (0,) for k in cands if len(k) == 2]     # the same Study numbers stored blade first
         for keys in cands:
             for a in (0.5, 2.0, 7.25):
                 for bs in product((-3.0, -0.5, 0.25, 1.5), repeat=len(keys) - 1):
                     vals = [a] + list(bs)
+                    if keys[0] != 0:
+                        vals = list(bs) + [a]
                     x = nmv(alg, keys, vals)
                     xr = mv_to_ref(alg, ref, x)
                     B = {k: v for k, v in xr.items() if k != ()}
@@ -236,7 +239,7 @@ def run_shard(shard):
                 x = nmv(alg, keys, vals)
                 xr = mv_to_ref(alg, ref, x)
                 inv = ref.inverse(xr)
-                for n in range(-3, 5):
+                for n in range(-6, 11):
                     res.evals += 1
                     if n < 0 and inv is None:
                         res.skipped += 1
@@ -251,7 +254,7 @@ def run_shard(shard):
                     if cmp_keys(got, want):
                         res.violate(violation(f'pow:{"neg" if n < 0 else "nonneg"}', f'{name} keys {keys} values {vals} ** {n} is not the repeated product', case, show(want), show(got),
                                               head + f"x = alg.multivector(keys={keys}, values={vals}); print(x**{n})"))
-        res.sample({'config': name, 'function': 'x ** n, n in -3..4', 'patterns': len(pats)})
+        res.sample({'config': name, 'function': 'x ** n, n in -6..10', 'patterns': len(pats)})
     elif kind == 'norm':
         c = tuple(alg.canon2bin.values())
         g = spaces.grade_of
